@@ -143,7 +143,7 @@ def gen_solution(rng, kinds=None, hostile=True):
     if rng.random() < 0.7:
         meta["processor_name"] = rng.choice(["Intel Core i7-8550U CPU @ 1.80GHz", "AMD <Ryzen> & \"co\" 'x'", "x",
                                              "M1 üß中", "a  b"])
-    dkind = rng.choice(["default", "none", "explicit", "micro"])
+    dkind = rng.choice(["default", "none", "explicit", "micro", "cleared"])
     if dkind == "none":
         meta["date"] = None
     elif dkind == "explicit":
@@ -152,5 +152,9 @@ def gen_solution(rng, kinds=None, hostile=True):
     elif dkind == "micro":
         meta["date"] = datetime.datetime(2021, 3, 4, 5, 6, 7, rng.randint(1, 999999))
     sol = Solution(sid, pps, **meta)
+    if dkind == "cleared":
+        # the date is a plain public attribute: removed after construction, the solution has no date
+        sol.date = None
+        meta["date"] = None
     return sol, {"scenario_id": f, "pps": specs, "meta": {k: (v.isoformat() if hasattr(v, "isoformat") else v)
                                                           for k, v in meta.items()}, "date_kind": dkind}
